@@ -6,9 +6,10 @@ import stale
 from props import c01
 
 EXPLANATION = (
-    "Decides the rendezvous structure: detach_state is moved only by atomic exchange after creation; for every old value "
-    "the exchange can return, each of fiber_mark_completed / fiber_join / fiber_tryjoin / fiber_detach takes exactly the "
-    "specified action (first party parks through the deferred set_and_wait on the fiber's join_info; second party takes the "
+    "Decides the rendezvous structure: detach_state is moved only by compare-exchange from a named state after creation "
+    "(transition table: completed NONE->WFJ; join NONE->WTJ, WFJ->WTJ; tryjoin WFJ->WTJ; detach NONE->DET, WFJ->DET); for every "
+    "sequence of states its accesses can observe (other parties moving the state in between), each of fiber_mark_completed / "
+    "fiber_join / fiber_tryjoin / fiber_detach makes only a legal transition and takes exactly the specified action (first party parks through the deferred set_and_wait on the fiber's join_info; second party takes the "
     "sleeper with clear_or_wait, marks it READY and schedules it, in that order; every other value is an error return "
     "without blocking); the finished fiber's result is stored before its state exchange and copied into a waiting joiner "
     "before that joiner is scheduled; join/tryjoin read the result only after having observed WAIT_FOR_JOINER and before "
@@ -22,8 +23,19 @@ SAW, COW = "fiber_manager_set_and_wait", "fiber_manager_clear_or_wait"
 SCHED = c01.SCHED
 
 
-def xchg(f):
-    return [s for s in atomic_ops(f, F, "detach_state") if s.aop == "exchange"]
+# moves other parties can make on detach_state between two of our accesses
+MOVES = {NONE: (WFJ, WTJ, DET), WFJ: (WTJ, DET), WTJ: (), DET: ()}
+NAMES = {NONE: "NONE", WFJ: "WAIT_FOR_JOINER", WTJ: "WAIT_TO_JOIN", DET: "DETACHED"}
+
+
+def later(s):
+    out, todo = {s}, [s]
+    while todo:
+        for t in MOVES[todo.pop()]:
+            if t not in out:
+                out.add(t)
+                todo.append(t)
+    return sorted(out)
 
 
 def ds_load(f):
@@ -31,38 +43,128 @@ def ds_load(f):
     return lambda n: n.id in ids
 
 
-def table(ctx, f, o, x, spec, pre_load=None):
-    """spec: old -> dict(saw=bool, cow=bool, ret=value or None)"""
-    bad = None
-    isx = lambda n: n is x.node
+class Shape(Exception):
+    pass
+
+
+def cas_sites(f, new):
+    """The compare-exchanges on detach_state in f, ordered by dominance, with their shared `expected` local and its initial value."""
+    cs = [s for s in atomic_ops(f, F, "detach_state") if s.aop == "cas"]
+    if not cs or len(cs) > 2:
+        raise Shape("expected one or two compare-exchanges on detach_state, found %d" % len(cs))
+    dids = set()
+    for c in cs:
+        if strip(c.value).cv != new:
+            raise Shape("`%s` installs %s, not %s" % (c.node.text, strip(c.value).cv, NAMES[new]))
+        e = strip(c.expected)
+        v = strip(e.kids[0]) if e is not None and e.k == "UnaryOperator" and e.op == "&" and e.kids else None
+        if v is None or v.k != "DeclRefExpr":
+            raise Shape("the expected value of `%s` is not the address of a local" % c.node.text)
+        dids.add(v.did)
+    if len(dids) != 1:
+        raise Shape("the compare-exchanges use different expected locals")
+    did = dids.pop()
+    if len(cs) == 2:
+        if f.find_path(cs[1].node, lambda n: n is cs[0].node) is not None and f.find_path(cs[0].node, lambda n: n is cs[1].node) is None:
+            cs.reverse()
+        if f.find_path(cs[1].node, lambda n: n is cs[0].node) is not None:
+            raise Shape("compare-exchange inside a retry loop: shape not supported by this rule")
+    for c in cs:
+        if f.find_path(c.node, lambda n, c=c: n is c.node) is not None:
+            raise Shape("compare-exchange inside a retry loop: shape not supported by this rule")
+    # the expected local: initialised once by a constant, never assigned afterwards (only the compare-exchange rewrites it)
+    init = None
+    for kind, n, val in f.defs().get(did, []):
+        if kind == "init" and init is None:
+            try:
+                init = ev(f, val, lambda m: None)
+            except Unevaluable:
+                init = None
+        elif kind in ("assign", "mod", "init"):
+            raise Shape("the expected local is written at `%s`" % n.text)
+    if init is None:
+        raise Shape("the expected local is not initialised with a state constant")
+    return cs, did, init
+
+
+def scenarios(f, cs, did, init):
+    """Every sequence of states our accesses can observe: (description, atom, took_from or None, last observed state)."""
+    from rules import is_var_load
+    isl = ds_load(f)
+    isv = is_var_load(did)
+    isp = is_var_load(f.params[0]["did"])      # the fiber argument is a valid pointer
+    c1 = cs[0].node
+    c2 = cs[1].node if len(cs) == 2 else None
+    before1 = {n.id for n in f.nodes if isv(n) and f.find_path(n, lambda m: m is c1) is not None}
+    before2 = {n.id for n in f.nodes if c2 is not None and isv(n) and n.id not in before1 and f.find_path(n, lambda m: m is c2) is not None}
+    out = []
+    for s0 in (NONE, WFJ, WTJ, DET):
+        for s1 in later(s0):
+            r1 = int(s1 == init)
+            seconds = [None] if (r1 or c2 is None) else [None] + later(s1)
+            for s2 in seconds:
+                r2 = None if s2 is None else int(s2 == s1)
+                mid = init if r1 else s1
+                fin = mid if (r2 is None or r2) else s2
+                took = s1 if r1 else (s2 if r2 else None)
+                last = s1 if s2 is None else s2
+
+                def atom(n, r1=r1, r2=r2, mid=mid, fin=fin, s0=s0):
+                    if n is c1:
+                        return r1
+                    if c2 is not None and n is c2:
+                        return r2
+                    if isl(n):
+                        return s0
+                    if isv(n):
+                        return init if n.id in before1 else (mid if n.id in before2 else fin)
+                    if isp(n):
+                        return 0x4000
+                    return None
+                desc = "pre-read %s, first compare-exchange sees %s%s" % (NAMES[s0], NAMES[s1], "" if s2 is None else ", second sees %s" % NAMES[s2])
+                # feasibility: the second compare-exchange is executed exactly in the scenarios that give it an outcome
+                if c2 is not None and not r1:
+                    runs2 = reach(f, [c2], atom)
+                    if (s2 is None) == runs2:
+                        continue
+                out.append((desc, atom, took, last))
+    return out
+
+
+def protocol(f, new, spec, nospec):
+    """spec: from-state -> dict(saw, cow, ret) for a transition made by f; nospec(last) -> dict for the no-transition outcome."""
+    cs, did, init = cas_sites(f, new)
     saws, cows, scs = f.calls(SAW), f.calls(COW), f.calls(SCHED)
-    for old, want in spec.items():
-        pairs = [(isx, old)]
-        if pre_load is not None:
-            pairs.append((ds_load(f), pre_load(old)))
-        atom = atom_from(pairs)
-        rs = reach(f, saws, atom, start=x.node)
-        rc = reach(f, cows, atom, start=x.node)
-        rq = reach(f, scs, atom, start=x.node)
+    rd = [s.node for s, v in c01.state_stores(f) if v == c01.READY]
+    n = 0
+    for desc, atom, took, last in scenarios(f, cs, did, init):
+        # a scenario whose compare-exchange is never reached (pre-read return) makes no transition
+        reached1 = reach(f, [cs[0].node], atom)
+        if took is not None and not reached1:
+            took = None
+        if took is not None and took not in spec:
+            return "%s: the state moves from %s to %s, which is not a legal transition here" % (desc, NAMES[took], NAMES[new]), cs[0].node
+        want = spec[took] if took is not None else nospec(last)
+        n += 1
+        rs, rc, rq = reach(f, saws, atom), reach(f, cows, atom), reach(f, scs, atom)
         if rs != want["saw"]:
-            bad = bad or "old state %d: parks (set_and_wait) = %s, expected %s" % (old, rs, want["saw"])
+            return "%s: parks (set_and_wait) = %s, expected %s" % (desc, rs, want["saw"]), cs[0].node
         if rc != want["cow"] or rq != want["cow"]:
-            bad = bad or "old state %d: takes+schedules the other party = %s/%s, expected %s" % (old, rc, rq, want["cow"])
+            return "%s: takes+schedules the other party = %s/%s, expected %s" % (desc, rc, rq, want["cow"]), cs[0].node
         if want.get("ret") is not None:
             for r in f.returns():
-                if reach(f, [r], atom, start=x.node) and ret_const(f, r) != want["ret"]:
-                    bad = bad or "old state %d: returns %s, expected %s" % (old, ret_const(f, r), want["ret"])
-        # the second party: clear_or_wait -> READY -> schedule, in that order, every path
+                if reach(f, [r], atom) and ret_const(f, r) != want["ret"]:
+                    return "%s: returns %s, expected %s" % (desc, ret_const(f, r), want["ret"]), r
         if want["cow"]:
-            rd = [s.node for s, v in c01.state_stores(f) if v == c01.READY]
+            e = forced_edges(f, atom)
             for q in scs:
-                if not reach(f, [q], atom, start=x.node):
+                if f.find_path("entry", lambda m: m is q, edge_ok=e) is None:
                     continue
-                if f.dominated_by(q, nodeset(cows)) is not None and f.find_path(x.node, lambda n: n is q, barrier=nodeset(cows)) is not None:
-                    bad = bad or "schedule reachable without clear_or_wait"
-                if f.find_path(x.node, lambda n: n is q, barrier=nodeset(rd)) is not None:
-                    bad = bad or "schedule reachable without the READY store"
-    return bad
+                if f.find_path("entry", lambda m: m is q, barrier=nodeset(cows), edge_ok=e) is not None:
+                    return "%s: schedule reachable without clear_or_wait" % desc, q
+                if f.find_path("entry", lambda m: m is q, barrier=nodeset(rd), edge_ok=e) is not None:
+                    return "%s: schedule reachable without the READY store" % desc, q
+    return None, n
 
 
 def run(ctx):
@@ -74,8 +176,9 @@ def run(ctx):
     deps.depend(ctx, P, "C19", "layout.dep", "the context buffer that precedes the join result in fiber_t",
                 "libgcc writes the split-stack context on every switch: if the buffer is too short the write lands on the fiber's `result`, which a joiner then reads as NULL",
                 lambda x: x.rule.startswith("splitstack."))
-    o = ctx.ob("xchg", "", "after creation detach_state is modified only by atomic exchange (in mark_completed, join, tryjoin, detach)",
-               "a plain store (or a load-then-store) lets both parties believe they were first: both park, or both wake")
+    o = ctx.ob("cas", "", "after creation detach_state is modified only by compare-exchange from one named state (in mark_completed, join, tryjoin, detach)",
+               "a plain store or an unconditional exchange overwrites a state another party relies on: a registered joiner becomes invisible (a second "
+               "joiner or a detach then also 'wins'), or a DETACHED mark is erased and the finished fiber waits for ever for a joiner")
     bad = None
     n = 0
     for fn in P.unique_functions():
@@ -83,22 +186,39 @@ def run(ctx):
             n += 1
             kind = writer_kind(s)
             ok = (kind == "assign" and fn.name in ("fiber_create_no_sched", "fiber_create_from_thread") and strip(s.value).cv == NONE) or \
-                 (kind == "exchange" and fn.name in ("fiber_mark_completed", "fiber_join", "fiber_tryjoin", "fiber_detach"))
+                 (kind == "cas" and fn.name in ("fiber_mark_completed", "fiber_join", "fiber_tryjoin", "fiber_detach"))
             if not ok:
                 bad = bad or ("`%s` in %s" % (s.node.text, fn.name), s.node)
     ctx.expect_count("writers of detach_state", n, 6)
     o.check(bad is None, "%d writers" % n, "unexpected writer " + (bad[0] if bad else ""), site=bad[1] if bad else None, construct="detach_state writer")
 
+    nothing = lambda last: dict(saw=False, cow=False, ret=0)
+
+    def run_protocol(o, f, new, spec, nospec, extra=None, construct=""):
+        try:
+            bad, n = protocol(f, new, spec, nospec)
+            site = None
+            if bad is not None and n is not None and not isinstance(n, int):
+                site = n
+            if bad is None and extra is not None:
+                cs, did, init = cas_sites(f, new)
+                bad = extra(cs, did, init)
+            o.check(bad is None, "all observation sequences of the state (pre-read, first and second compare-exchange)", bad,
+                    site=site or f.loc, construct=construct)
+        except Shape as e:
+            if "not supported" in str(e):
+                raise AnalysisBroken("C04 %s: %s" % (f.name, e))
+            o.fail(str(e), site=f.loc, construct=construct)
+
     mc = P.fn("fiber_mark_completed")
-    o = ctx.ob("complete", mc, "mark_completed stores the result, then exchanges WAIT_FOR_JOINER in: old NONE -> park on join_info; old WAIT_TO_JOIN -> "
-               "copy the result into the joiner, mark it READY, schedule it; anything else -> neither",
-               "parking when a joiner already waits deadlocks both; not parking when nobody joined yet lets the fiber be reclaimed with its result undelivered")
-    xs = xchg(mc)
-    if len(xs) != 1 or xs[0].value.cv != WFJ:
-        o.fail("expected one exchange(WAIT_FOR_JOINER)", site=mc.loc, construct="mark_completed exchange")
-    else:
-        x = xs[0]
-        bad = table(ctx, mc, o, x, {NONE: dict(saw=True, cow=False), WFJ: dict(saw=False, cow=False), WTJ: dict(saw=False, cow=True), DET: dict(saw=False, cow=False)})
+    o = ctx.ob("complete", mc, "mark_completed stores the result, then moves NONE -> WAIT_FOR_JOINER and parks on join_info; if it observes WAIT_TO_JOIN "
+               "instead it leaves the state alone, copies the result into the joiner, marks it READY and schedules it; DETACHED -> neither",
+               "parking when a joiner already waits deadlocks both; not parking when nobody joined yet lets the fiber be reclaimed with its result undelivered; "
+               "overwriting WAIT_TO_JOIN makes the finished fiber look joinable to a second joiner")
+
+    def mc_extra(cs, did, init):
+        bad = None
+        x = cs[0]
         rs = [s for s in mc.stores_to(F, "result")]
         own = [s for s in rs if mc.target_key(s.target)[3] == ("*", ("var", mc.params[0]["name"], mc.params[0]["did"]))]
         if not own:
@@ -111,7 +231,7 @@ def run(ctx):
             skipped_only_for_null = not reach(mc, [x.node], atom_from([(isres, 0x4000)]), barrier=nodeset([s.node for s in own]))
             mb = mailbox_emptied(P)
             if not skipped_only_for_null:
-                bad = bad or "the state exchange is reachable before the result is stored"
+                bad = bad or "the state transition is reachable before the result is stored"
             elif mb is not None:
                 bad = bad or ("the result is published only when it is non-NULL, but the fiber's result field is not guaranteed to be NULL otherwise: " + mb)
         if own and not order_ge(own[0].order or "relaxed", "release"):
@@ -125,69 +245,54 @@ def run(ctx):
             k1 = mc.key(a[1], resolve=True)
             if not key_mentions(k1, lambda y: y[0] == "f" and y[2] == "join_info") or strip(a[2]).did != mc.params[0]["did"]:
                 bad = bad or "parks with `%s`" % c.text
-        # DETACHED pre-check must not skip the handshake for other states
-        o.check(bad is None, "4-state table", bad, site=x.node, construct="mark_completed protocol")
+        return bad
+    run_protocol(o, mc, WFJ, {NONE: dict(saw=True, cow=False)},
+                 lambda last: dict(saw=False, cow=(last == WTJ)), mc_extra, "mark_completed protocol")
 
     j = P.fn("fiber_join")
-    o = ctx.ob("join", j, "join exchanges WAIT_TO_JOIN in: old NONE -> park on f->join_info with itself, then take the result from its own mailbox; old "
-               "WAIT_FOR_JOINER -> read f->result, take+READY+schedule f; old WAIT_TO_JOIN / DETACHED -> ERROR without blocking",
-               "blocking on a detached or already-joined fiber never returns; reading f->result after waking f reads freed memory")
-    xs = xchg(j)
-    if len(xs) != 1 or xs[0].value.cv != WTJ:
-        o.fail("expected one exchange(WAIT_TO_JOIN)", site=j.loc, construct="join exchange")
-    else:
-        x = xs[0]
-        bad = table(ctx, j, o, x, {NONE: dict(saw=True, cow=False, ret=1), WFJ: dict(saw=False, cow=True, ret=1),
-                                   WTJ: dict(saw=False, cow=False, ret=0), DET: dict(saw=False, cow=False, ret=0)})
-        bad = bad or result_rules(j, x)
+    o = ctx.ob("join", j, "join moves NONE -> WAIT_TO_JOIN and parks on f->join_info with itself, then takes the result from its own mailbox; or moves "
+               "WAIT_FOR_JOINER -> WAIT_TO_JOIN, reads f->result, take+READY+schedule f; on WAIT_TO_JOIN / DETACHED it returns ERROR without "
+               "blocking and without changing the state",
+               "blocking on a detached or already-joined fiber never returns; erasing DETACHED leaves the finished fiber waiting for a joiner for ever; "
+               "reading f->result after waking f reads freed memory")
+
+    def j_extra(cs, did, init):
+        bad = result_rules(j, cs, did, init)
         for c in j.calls(SAW):
             a = j.args(c)
             if not key_mentions(j.key(a[1], True), lambda y: y[0] == "f" and y[2] == "join_info" and y[3] == ("*", ("var", "f", j.params[0]["did"]))):
                 bad = bad or "parks on `%s`" % a[1].text
             if not key_mentions(j.key(a[2], True), lambda y: y[0] == "f" and y[2] == "current_fiber"):
                 bad = bad or "parks `%s`, not the calling fiber" % a[2].text
-        o.check(bad is None, "4-state table + result rules", bad, site=x.node, construct="join protocol")
+        return bad
+    run_protocol(o, j, WTJ, {NONE: dict(saw=True, cow=False, ret=1), WFJ: dict(saw=False, cow=True, ret=1)}, nothing, j_extra, "join protocol")
 
     t = P.fn("fiber_tryjoin")
-    o = ctx.ob("tryjoin", t, "tryjoin exchanges only after having read WAIT_FOR_JOINER; only old WAIT_FOR_JOINER -> read result, take+READY+schedule, "
-               "SUCCESS; everything else ERROR; it never parks, and its only blocking call is behind that observation",
-               "a tryjoin that exchanges unconditionally marks an unfinished fiber as 'being joined' and a later join fails; one that parks is not a tryjoin")
-    xs = xchg(t)
-    if len(xs) != 1 or xs[0].value.cv != WTJ:
-        o.fail("expected one exchange(WAIT_TO_JOIN)", site=t.loc, construct="tryjoin exchange")
-    else:
-        x = xs[0]
-        bad = table(ctx, t, o, x, {WFJ: dict(saw=False, cow=True, ret=1), NONE: dict(saw=False, cow=False, ret=0),
-                                   WTJ: dict(saw=False, cow=False, ret=0), DET: dict(saw=False, cow=False, ret=0)})
-        isl = ds_load(t)
-        for pre in (NONE, WTJ, DET):
-            if reach(t, [x.node], atom_from([(isl, pre)])):
-                bad = bad or "the exchange is reachable after reading state %d (fiber not finished / not joinable)" % pre
-            for r in t.returns():
-                if reach(t, [r], atom_from([(isl, pre)])) and ret_const(t, r) != 0:
-                    bad = bad or "state %d read: returns %s" % (pre, ret_const(t, r))
+    o = ctx.ob("tryjoin", t, "tryjoin only moves WAIT_FOR_JOINER -> WAIT_TO_JOIN (then: read result, take+READY+schedule, SUCCESS); everything else ERROR "
+               "with the state unchanged; it never parks, and its only blocking call is behind that transition",
+               "a tryjoin that marks an unfinished fiber as 'being joined' makes a later join fail; one that parks is not a tryjoin")
+
+    def t_extra(cs, did, init):
+        bad = None
         if t.calls(SAW):
-            bad = bad or "tryjoin parks"
+            bad = "tryjoin parks"
         ms = stale.switch_calls(P, t)
-        for c in ms:
-            if reach(t, [c], atom_from([(isl, NONE)])) or reach(t, [c], atom_from([(isl, WFJ), (lambda n: n is x.node, NONE)])):
-                bad = bad or "`%s` (may block) is reachable for an unfinished fiber" % c.text
-        bad = bad or result_rules(t, x)
-        o.check(bad is None, "state tables + result rules", bad, site=x.node, construct="tryjoin protocol")
+        for desc, atom, took, last in scenarios(t, cs, did, init):
+            if took is None:
+                for c in ms:
+                    if reach(t, [c], atom):
+                        bad = bad or "%s: `%s` (may block) is reachable although tryjoin did not take the fiber" % (desc, c.text)
+        return bad or result_rules(t, cs, did, init)
+    run_protocol(o, t, WTJ, {WFJ: dict(saw=False, cow=True, ret=1)}, nothing, t_extra, "tryjoin protocol")
 
     d = P.fn("fiber_detach")
-    o = ctx.ob("detach", d, "detach exchanges DETACHED in: old WAIT_FOR_JOINER / WAIT_TO_JOIN -> take+READY+schedule the parked party; old DETACHED -> "
-               "ERROR; old NONE -> SUCCESS with no further action; it never parks",
-               "not waking a finished fiber that waits for a joiner leaks it for ever; waking on NONE spins in clear_or_wait for a party that never parks")
-    xs = xchg(d)
-    if len(xs) != 1 or xs[0].value.cv != DET:
-        o.fail("expected one exchange(DETACHED)", site=d.loc, construct="detach exchange")
-    else:
-        x = xs[0]
-        bad = table(ctx, d, o, x, {NONE: dict(saw=False, cow=False, ret=1), WFJ: dict(saw=False, cow=True, ret=1),
-                                   WTJ: dict(saw=False, cow=True, ret=1), DET: dict(saw=False, cow=False, ret=0)})
-        bad = bad or notouch_f(d, "f")
-        o.check(bad is None, "4-state table", bad, site=x.node, construct="detach protocol")
+    o = ctx.ob("detach", d, "detach moves NONE -> DETACHED (nothing else to do) or WAIT_FOR_JOINER -> DETACHED (take+READY+schedule the finished fiber), "
+               "SUCCESS; on WAIT_TO_JOIN / DETACHED it returns ERROR with the state unchanged; it never parks",
+               "not waking a finished fiber that waits for a joiner leaks it for ever; waking on NONE spins in clear_or_wait for a party that never parks; "
+               "detaching a fiber that has a registered joiner wakes the joiner with SUCCESS/NULL while the fiber still runs, or races the finishing fiber "
+               "for the single token in join_info")
+    run_protocol(o, d, DET, {NONE: dict(saw=False, cow=False, ret=1), WFJ: dict(saw=False, cow=True, ret=1)}, nothing,
+                 lambda cs, did, init: notouch_f(d, "f"), "detach protocol")
 
     cw = P.fn(COW)
     o = ctx.ob("rendezvous", cw, "clear_or_wait takes the sleeper with one atomic exchange(NULL), returns only a non-NULL value, and yields (re-fetching "
@@ -229,19 +334,19 @@ def mailbox_emptied(P):
     return None
 
 
-def result_rules(f, x):
-    """f->result is read only behind the WAIT_FOR_JOINER observation and before f is woken; f is not touched afterwards."""
-    isx = lambda n: n is x.node
+def result_rules(f, cs, did, init):
+    """f->result is read only after f moved the state WAIT_FOR_JOINER -> WAIT_TO_JOIN and before f is woken; f is not touched afterwards."""
     pd = f.params[0]["did"]
     rl = [l.node for l in f.loads_of(F, "result") if f.target_key(l.target)[3] == ("*", ("var", "f", pd))]
     if not rl:
         return "f->result is never read"
-    for old in (NONE, WTJ, DET):
-        if reach(f, rl, atom_from([(isx, old)]), start=x.node):
-            return "f->result is read although the exchange returned %d (not WAIT_FOR_JOINER)" % old
+    for desc, atom, took, last in scenarios(f, cs, did, init):
+        if took != WFJ and reach(f, rl, atom):
+            return "%s: f->result is read although this call did not take the finished fiber" % desc
+    iscas = nodeset([c.node for c in cs])
     for r in rl:
-        if f.dominated_by(r, isx) is not None:
-            return "f->result is read before the state exchange"
+        if f.dominated_by(r, iscas) is not None:
+            return "f->result is read before the state transition"
     wake = f.calls(SCHED) + f.calls(COW)
     for w in wake:
         for r in rl:
